@@ -105,6 +105,55 @@ func ruleResetBefore(c *Ctx, p *core.Program, rule string) {
 				anchor = call.(ssa.Instruction)
 			}
 		}
+		if anchor == nil && fn != root {
+			// reset and decode both live in a per-column helper (decodeTargetData(r, name, data, rows)) while the
+			// type check stays in the loop of the decoder: the helper resets on every path, and in the decoder
+			// every accepted column reaches the helper call before the iteration ends
+			var rootAnchor, helperCall ssa.Instruction
+			for _, call := range core.Calls(root) {
+				if f := core.CalleeFunc(call); f != nil && (core.IsMethod(f, core.PkgProto, "ColumnType", "Conflicts") || (root.Name() == "decodeAuto" && core.IsMethod(f, core.PkgProto, "ColAuto", "Infer"))) {
+					rootAnchor = call.(ssa.Instruction)
+				}
+				if core.StaticFn(call) == fn {
+					helperCall = call.(ssa.Instruction)
+				}
+			}
+			if rootAnchor != nil && helperCall != nil {
+				inHelper := core.ReachAvoiding(core.Entry(fn), func(in ssa.Instruction) bool {
+					_, isRet := in.(*ssa.Return)
+					return isRet && in.Block().Comment != "recover"
+				}, isReset, nil)
+				hdr := loopHeaderOf(rootAnchor.Block())
+				confTrue := core.CondEdges(root, true, func(cond ssa.Value) (bool, bool) {
+					_, ok := core.CallTo(cond, func(f *types.Func) bool { return core.IsMethod(f, core.PkgProto, "ColumnType", "Conflicts") })
+					return true, ok
+				})
+				edge := func(b *ssa.BasicBlock, i int) bool {
+					for _, e := range confTrue {
+						if e.B == b && e.Succ == i {
+							return false
+						}
+					}
+					return nilErrEdge(b, i)
+				}
+				inRoot := core.ReachAvoiding(core.PointOf(rootAnchor), func(in ssa.Instruction) bool {
+					if hdr != nil && in == hdr.Instrs[0] {
+						return true
+					}
+					r, ok := in.(*ssa.Return)
+					return ok && defaultSuccess(root, r)
+				}, func(in ssa.Instruction) bool { return in == helperCall }, edge)
+				switch {
+				case len(inHelper) > 0:
+					c.R.Bad(rule, key+"/every-block", cfg, p.Pos(inHelper[0].At.Pos()), "the per-column helper can return without Reset (e.g. a zero-row block): the target keeps the previous block's rows", p.TrailString(inHelper[0])...)
+				case len(inRoot) > 0:
+					c.R.Bad(rule, key+"/every-block", cfg, p.Pos(inRoot[0].At.Pos()), "an accepted column can finish its iteration without reaching the helper that resets it", p.TrailString(inRoot[0])...)
+				case !bad:
+					c.R.Ok(rule, key, cfg, p.Pos(resets[0].Pos()), "the per-column helper resets on every path and every accepted column reaches it")
+				}
+				continue
+			}
+		}
 		if anchor == nil {
 			c.R.Unk(rule, key, cfg, p.Pos(fn.Pos()), "no type check / inference call found (anchor lost)")
 			continue
@@ -674,9 +723,17 @@ func runC18(c *Ctx) {
 	// DecodeResult itself
 	outer := dr
 	var hostCall ssa.CallInstruction
+	tailHelpers := map[*ssa.Function]bool{}
 	if len(core.FindCalls(dr, isColMethod("DecodeColumn"))) == 0 {
 		for _, call := range core.Calls(dr) {
 			if sf := core.StaticFn(call); sf != nil && sf.Blocks != nil && pkgOf(sf) != nil && pkgOf(sf).Path() == core.PkgProto && len(core.FindCalls(sf, isColMethod("DecodeColumn"))) > 0 {
+				// a helper that only hosts the tail of the iteration (reset and decode) while the checks stay
+				// in DecodeResult is a sink of DecodeResult, not the host of the clauses
+				if len(core.FindCalls(sf, func(f *types.Func) bool { return core.IsMethod(f, core.PkgProto, "ColumnType", "Conflicts") })) == 0 &&
+					len(core.FindCalls(dr, func(f *types.Func) bool { return core.IsMethod(f, core.PkgProto, "ColumnType", "Conflicts") })) > 0 {
+					tailHelpers[sf] = true
+					continue
+				}
 				dr, hostCall = sf, call
 			}
 		}
@@ -716,7 +773,12 @@ func runC18(c *Ctx) {
 			sinks = append(sinks, call.(ssa.Instruction))
 		}
 	}
-	if len(sinks) < 2 {
+	for _, call := range core.Calls(dr) {
+		if sf := core.StaticFn(call); sf != nil && tailHelpers[sf] {
+			sinks = append(sinks, call.(ssa.Instruction))
+		}
+	}
+	if len(sinks) < 2 && len(tailHelpers) == 0 || len(sinks) == 0 {
 		c.R.Unk(rule, core.FuncName(dr), cfg, p.Pos(dr.Pos()), "decode calls not found")
 		return
 	}
@@ -894,7 +956,21 @@ func runC18(c *Ctx) {
 		isConf := func(in ssa.Instruction) bool {
 			return core.IsCallOf(in, func(f *types.Func) bool { return core.IsMethod(f, core.PkgProto, "ColumnType", "Conflicts") })
 		}
-		isReset := func(in ssa.Instruction) bool { return core.IsCallOf(in, isColMethod("Reset")) }
+		isReset := func(in ssa.Instruction) bool {
+			if core.IsCallOf(in, isColMethod("Reset")) {
+				return true
+			}
+			// the tail helper resets on every path (decided by *.reset / C16.before)
+			if call, ok := in.(ssa.CallInstruction); ok {
+				if sf := core.StaticFn(call); sf != nil && tailHelpers[sf] {
+					return len(core.ReachAvoiding(core.Entry(sf), func(x ssa.Instruction) bool {
+						_, isRet := x.(*ssa.Return)
+						return isRet && x.Block().Comment != "recover"
+					}, func(x ssa.Instruction) bool { return core.IsCallOf(x, isColMethod("Reset")) }, nil)) == 0
+				}
+			}
+			return false
+		}
 		for _, e := range nameOK {
 			start := core.Point{B: e.B.Succs[e.Succ], I: -1}
 			hdr := core.LoopHeader(e.B.Instrs[len(e.B.Instrs)-1])
